@@ -276,7 +276,84 @@ def run_workers(work, binary, prop, tier, seed0, total_runs, budget_s, extra_arg
     with ThreadPoolExecutor(max_workers=jobs) as ex:
         for r in ex.map(one, range(jobs)):
             outs.merge(r)
+    outs.layout = {"seed0": seed0, "jobs": jobs, "chunk": chunk}
     return outs
+
+
+def run_seeds(work, binary, prop, tier, seeds, tag, extra_args=None, env_extra=None, timeout=600):
+    """Runs the listed seeds, in order, in ONE fresh process; returns the outcome of the last one."""
+    out = work.path("seedsout-%s.jsonl" % tag)
+    env = dict(GOENV, GORACE="log_path=%s halt_on_error=0 exitcode=0" % work.path("race-" + tag))
+    if env_extra:
+        env.update(env_extra)
+    cmd = [binary, "-prop", prop, "-tier", tier, "-seeds", ",".join(str(x) for x in seeds), "-out", out]
+    if extra_args:
+        cmd += ["-args", extra_args]
+    try:
+        p = subprocess.run(cmd, env=env, stdout=subprocess.PIPE, stderr=subprocess.PIPE, timeout=timeout)
+    except subprocess.TimeoutExpired:
+        return None
+    try:
+        return json.loads(open(out).readline())
+    except Exception:
+        return None
+    finally:
+        try:
+            os.unlink(out)
+        except OSError:
+            pass
+
+
+def history_of(layout, seed):
+    """The seeds the worker process that ran `seed` had run before it, in order, ending with `seed`."""
+    if not layout:
+        return None
+    j, s0, chunk = layout["jobs"], layout["seed0"], layout["chunk"]
+    if seed < s0:
+        return None
+    idx = (seed - s0) // j
+    first = s0 + (seed - s0) % j
+    start = (idx // chunk) * chunk
+    return [first + j * k for k in range(start, idx + 1)]
+
+
+def replay_with_history(work, binary, prop, tier, layout, o, rule, sig, extra_args=None, env_extra=None):
+    """A violation that does not come back from its own tape in a fresh process may depend on what its process ran
+    before (process-wide state is part of the system). Re-runs the process history; if the violation comes back, shrinks
+    the history (shortest suffix, then dropping blocks) and returns (seeds, outcome); else None."""
+    hist = history_of(layout, o.get("seed", -1))
+    if not hist or len(hist) < 2:
+        return None
+    tag = "hist%d" % os.getpid()
+    full = run_seeds(work, binary, prop, tier, hist, tag, extra_args, env_extra)
+    if not has(full, rule, sig):
+        return None
+    best, best_o = hist, full
+    # shortest suffix
+    m = 2
+    while m < len(hist):
+        c = hist[-m:]
+        r = run_seeds(work, binary, prop, tier, c, tag, extra_args, env_extra)
+        if has(r, rule, sig):
+            best, best_o = c, r
+            break
+        m *= 2
+    # drop blocks of the prefix (the last seed always stays), bounded
+    tries = 0
+    size = max(1, (len(best) - 1) // 2)
+    while size >= 1 and tries < 40 and len(best) > 2:
+        pos, progress = 0, False
+        while pos < len(best) - 1 and tries < 40:
+            c = best[:pos] + best[min(pos + size, len(best) - 1):]
+            tries += 1
+            r = run_seeds(work, binary, prop, tier, c, tag, extra_args, env_extra) if len(c) < len(best) else None
+            if has(r, rule, sig):
+                best, best_o, progress = c, r, True
+            else:
+                pos += size
+        if not progress or size == 1:
+            size //= 2
+    return best, best_o
 
 
 def run_tape(work, binary, prop, tier, tape_obj, tag, extra_args=None, env_extra=None, timeout=120):
@@ -468,6 +545,13 @@ def triage(work, binary, prop, tier, outcomes, extra_args=None, env_extra=None, 
             ver = run_tape(work, binary, prop, tier, {"seed": o["seed"], "tape": o["tape"]}, "verify-o%d" % n_new, extra_args, env_extra) if o.get("tape") else None
             if has(ver, rule, sig) and not ver.get("diverged"):
                 mo, reproduced = o, True
+        history = None
+        if not reproduced:
+            hr = replay_with_history(work, binary, prop, tier, getattr(outcomes, "layout", None), o, rule, sig, extra_args, env_extra)
+            if hr:
+                history, ver = hr
+                mo, reproduced = dict(o, tape=ver.get("tape") or o.get("tape")), True
+                log("%s/%s depends on process history: reproduced by running %d earlier seeds first" % (rule, sig, len(history) - 1))
         if not reproduced:
             # not a verdict: remembered, and fatal (exit 2) only if nothing else was confirmed
             flaky.append("violation %s/%s (seed %s) did not reproduce on replay\n%s" % (rule, sig, o.get("seed"), v["detail"][:1500]))
@@ -490,8 +574,12 @@ def triage(work, binary, prop, tier, outcomes, extra_args=None, env_extra=None, 
         json.dump({"property": prop, "tier": tier, "rule": rule, "signature": sig, "detail": mv["detail"], "seed": mo["seed"],
                    "tree_hash": work.tree_hash, "digest": ver.get("digest"), "sample": ver.get("sample"), "args": extra_args,
                    "original_draws": len(o.get("tape") or []), "minimised_draws": len(mo["tape"]), "minimiser_runs": mruns,
-                   "occurrences_in_run": len(items), "tape": mo["tape"]}, open(rp, "w"), indent=1)
+                   "occurrences_in_run": len(items), "tape": mo["tape"], "history_seeds": history,
+                   "note": ("the verdict depends on process history: the replay runs history_seeds in order in one fresh process and judges the last" if history else None)},
+                  open(rp, "w"), indent=1)
         print("VIOLATION property=%s replay=%s" % (prop, rp), flush=True)
+        if history:
+            print("  (depends on process history: %d earlier runs in the same process are part of the replay)" % (len(history) - 1), flush=True)
         print("  rule=%s signature=%s seed=%s draws=%d->%d\n  %s" % (rule, sig, mo["seed"], len(o.get("tape") or []), len(mo["tape"]), mv["detail"][:1500].replace("\n", "\n  ")), flush=True)
         n_new += 1
         details.append({"rule": rule, "signature": sig, "known": False, "occurrences": len(items), "replay": rp})
@@ -670,7 +758,10 @@ def replay(path):
     work = Work()
     work.prepare()
     binary = work.build(cfg["pkg"], cfg["engine"], race=cfg["race"])
-    o = run_tape(work, binary, prop, rf.get("tier", "quick"), {"seed": rf["seed"], "tape": rf["tape"]}, "replay", rf.get("args"))
+    if rf.get("history_seeds"):
+        o = run_seeds(work, binary, prop, rf.get("tier", "quick"), rf["history_seeds"], "replay", rf.get("args"))
+    else:
+        o = run_tape(work, binary, prop, rf.get("tier", "quick"), {"seed": rf["seed"], "tape": rf["tape"]}, "replay", rf.get("args"))
     if o is None:
         raise Trouble("replay run failed")
     print(json.dumps({k: o.get(k) for k in ("digest", "diverged", "violations", "sample")}, indent=1)[:6000])
